@@ -8,12 +8,14 @@ import (
 	"os"
 	"runtime"
 	"sync"
+	"time"
 
 	"mosn.io/api"
 	v2 "mosn.io/mosn/pkg/config/v2"
 	mlog "mosn.io/mosn/pkg/log"
 	"mosn.io/mosn/pkg/mosn"
 	"mosn.io/mosn/pkg/protocol/xprotocol"
+	"mosn.io/mosn/pkg/upstream/cluster"
 	"mosn.io/mosn/pkg/protocol/xprotocol/bolt"
 	"mosn.io/mosn/pkg/protocol/xprotocol/boltv2"
 	"mosn.io/mosn/pkg/protocol/xprotocol/dubbo"
@@ -66,6 +68,7 @@ func StartMosn(cfgJSON []byte) (*mosn.Mosn, error) {
 	if os.Getenv("VERIF_MOSN_LOG") == "" {
 		mlog.StartLogger.SetLogLevel(mlog.ERROR)
 	}
+	cluster.VerifReseedRR(time.Now().UnixNano()) // fake clock: a function of the seed
 	cfg := &v2.MOSNConfig{}
 	if err := json.Unmarshal(cfgJSON, cfg); err != nil {
 		return nil, fmt.Errorf("config: %w", err)
